@@ -406,39 +406,43 @@ where
         + Ord
         + FromUniformBytes<64>,
 {
-    instances
-        .iter()
-        .map(|instance| -> Result<InstanceSingle<F>, Error> {
-            let instance_values = instance
-                .iter()
-                .enumerate()
-                .map(|(i, values)| {
-                    // Committed instances go first.
-                    let is_committed_instance = i < nb_committed_instances;
-                    let mut poly = pk.vk.domain.empty_lagrange();
-                    assert_eq!(poly.len(), pk.vk.domain.n as usize);
-                    if values.len() > (poly.len() - (pk.vk.cs.blinding_factors() + 1)) {
-                        return Err(Error::InstanceTooLarge);
-                    }
-                    if !is_committed_instance {
-                        transcript.common(&F::from_u128(values.len() as u128))?;
-                    }
+    // The verifier absorbs the committed instances of all proofs first, and then
+    // the plain instances of all proofs, so the prover must do the same. (Committed
+    // instances are the first `nb_committed_instances` columns of every proof.)
+    let mut instance_values = Vec::with_capacity(instances.len());
+    for instance in instances.iter() {
+        let mut polys = Vec::with_capacity(instance.len());
+        for values in instance.iter() {
+            let mut poly = pk.vk.domain.empty_lagrange();
+            assert_eq!(poly.len(), pk.vk.domain.n as usize);
+            if values.len() > (poly.len() - (pk.vk.cs.blinding_factors() + 1)) {
+                return Err(Error::InstanceTooLarge);
+            }
+            for (poly_eval, value) in poly.iter_mut().zip(values.iter()) {
+                *poly_eval = *value;
+            }
+            polys.push(poly);
+        }
+        instance_values.push(polys);
+    }
 
-                    for (poly_eval, value) in poly.iter_mut().zip(values.iter()) {
-                        if !is_committed_instance {
-                            transcript.common(value)?;
-                        }
-                        *poly_eval = *value;
-                    }
+    for polys in instance_values.iter() {
+        for poly in polys.iter().take(nb_committed_instances) {
+            transcript.common(&CS::commit_lagrange(params, poly))?;
+        }
+    }
+    for instance in instances.iter() {
+        for values in instance.iter().skip(nb_committed_instances) {
+            transcript.common(&F::from_u128(values.len() as u128))?;
+            for value in values.iter() {
+                transcript.common(value)?;
+            }
+        }
+    }
 
-                    if is_committed_instance {
-                        transcript.common(&CS::commit_lagrange(params, &poly))?;
-                    }
-
-                    Ok(poly)
-                })
-                .collect::<Result<Vec<_>, _>>()?;
-
+    Ok(instance_values
+        .into_iter()
+        .map(|instance_values| {
             let instance_polys: Vec<_> = instance_values
                 .iter()
                 .map(|poly| {
@@ -447,12 +451,12 @@ where
                 })
                 .collect();
 
-            Ok(InstanceSingle {
+            InstanceSingle {
                 instance_values,
                 instance_polys,
-            })
+            }
         })
-        .collect::<Result<Vec<_>, _>>()
+        .collect())
 }
 
 #[allow(clippy::type_complexity)]
